@@ -47,7 +47,7 @@ fn enabled(w: &World, hist: &[Ev]) -> Vec<Ev> {
                     v.push(Ev::ContSync(p));
                 }
                 if w.cfg.leios {
-                    if count(&|x| *x == Ev::FetchEb(p)) < 1 {
+                    if count(&|x| *x == Ev::FetchEb(p)) < 2 {
                         v.push(Ev::FetchEb(p));
                     }
                     if count(&|x| *x == Ev::FetchEbTxs(p)) < 1 {
@@ -91,10 +91,13 @@ fn explore(ctx: &Ctx, cfg: &Cfg, depth: usize, max_states: usize, label: &str) -
                 if w.violations.is_empty() {
                     Outcome::State(w.key())
                 } else {
-                    for (p, label, why) in &w.violations {
+                    for (k, (p, label, why)) in w.violations.iter().enumerate() {
                         let deferred = w.env[*p as usize].unconfirmed.len().saturating_sub(1);
+                        // two requests on one mini-protocol within a single pass need no delayed
+                        // confirmation: a defect of its own, not the recorded one
+                        let same_pass = if w.violations_same_pass.get(k).copied().unwrap_or(false) { ":two-in-one-pass" } else { "" };
                         ctx.violation(
-                            format!("C28:{label}:{why}"),
+                            format!("C28:{label}:{why}{same_pass}"),
                             format!("peer {p}: the initiator emitted {label} although {why} ({deferred} earlier message(s) to this peer still unconfirmed); history {:?}", hist),
                             case(),
                         );
